@@ -145,7 +145,7 @@ func chole(rng *rand.Rand, G float64, U int64) [][]ipt {
 	if gi < 12 {
 		return nil
 	}
-	W, H := (6+rng.Int63n(gi-9))*U, (6+rng.Int63n(gi-9))*U
+	W, H := (9+rng.Int63n(gi-11))*U, (9+rng.Int63n(gi-11))*U
 	x0, y0 := (1+rng.Int63n(gi-2-W/U))*U+rng.Int63n(U), (1+rng.Int63n(gi-2-H/U))*U+rng.Int63n(U)
 	if x0+W >= gi*U-U/2 || y0+H >= gi*U-U/2 {
 		return nil
@@ -173,7 +173,15 @@ func chole(rng *rand.Rand, G float64, U int64) [][]ipt {
 			default:
 				hx, hy = ix0+U+rng.Int63n(ix1-ix0-2*U), iy1-d-U
 			}
-			rings = append(rings, []ipt{{hx, hy}, {hx + U, hy + U/3}, {hx + U/2, hy + U}})
+			// big enough to have interior locations more than a pixel away from every boundary
+			sz := (3 + rng.Int63n(2)) * U
+			if rng.Intn(3) == 0 {
+				sz = U
+			}
+			hx, hy = min64(hx, ix1-d-sz), min64(hy, iy1-d-sz)
+			if hx > ix0 && hy > iy0 {
+				rings = append(rings, []ipt{{hx, hy}, {hx + sz, hy}, {hx + sz, hy + sz}, {hx, hy + sz}})
+			}
 		}
 	}
 	return rings
@@ -188,6 +196,33 @@ func edgehole(rng *rand.Rand, G float64, U int64) [][]ipt {
 	a, b, c, d := shell[0].x, shell[0].y, shell[2].x, shell[2].y
 	if c-a < 4*U || d-b < 4*U {
 		return nil
+	}
+	if rng.Intn(3) == 0 && U >= 4 {
+		// a hole hugging a corner so closely that all its vertices share the pixel row or column of the shell's sides there
+		fx, fy := 2+rng.Int63n(U-2), 2+rng.Int63n(U-2) // where inside its pixel the corner sits (lattice units), >= 2
+		right, top := rng.Intn(2) == 0, rng.Intn(2) == 0
+		cx, cy := (c/U)*U+fx, (d/U)*U+fy
+		sx, sy := int64(-1), int64(-1)
+		if !right {
+			cx, sx = (a/U)*U+U-fx, 1
+		}
+		if !top {
+			cy, sy = (b/U)*U+U-fy, 1
+		}
+		sh := []ipt{{a, b}, {c, b}, {c, d}, {a, d}}
+		if right {
+			sh[1].x, sh[2].x = cx, cx
+		} else {
+			sh[0].x, sh[3].x = cx, cx
+		}
+		if top {
+			sh[2].y, sh[3].y = cy, cy
+		} else {
+			sh[0].y, sh[1].y = cy, cy
+		}
+		far := U + rng.Int63n(U)
+		hole := []ipt{{cx + sx*far, cy + sy*1}, {cx + sx*1, cy + sy*far}, {cx + sx*1, cy + sy*1}}
+		return [][]ipt{sh, hole}
 	}
 	e := 1 + rng.Int63n(U) // distance from the side(s)
 	sz := U/2 + rng.Int63n(2*U)
